@@ -52,6 +52,8 @@ def run(ctx):
     nclasses = 0
     table = []
     for rel in EXECUTORS:
+        repo.mod(rel)  # the five anchored executors must exist
+    for rel in sorted(r for r in repo.modules if r.startswith("redun/executors/")):
         mod = repo.mod(rel)
         for cname, cls in mod.classes.items():
             if "." in cname:
@@ -75,6 +77,9 @@ def run(ctx):
                 if tfn is None:
                     raise AnalysisError(f"{cname}: thread target {target} not found", f"{rel}:{cname}")
                 loops = [n for n in ast.walk(tfn) if isinstance(n, ast.While) and mod.enclosing_func(n) is tfn]
+                if not loops and rel not in EXECUTORS:
+                    table.append({"class": cname, "target": target, "start": mname, "note": "thread target has no polling loop: not a monitor"})
+                    continue
                 if not loops:
                     raise AnalysisError(f"{cname}.{target}: no loop in thread target (unknown shape)", f"{rel}:{cname}.{target}")
                 # outermost loop = terminal loop
@@ -137,11 +142,11 @@ def run(ctx):
                 ok3 = any(any(src(h.type) == "Exception" and any((call_name(c) or "").endswith("reject_job") for b in h.body for c in calls_in(b)) for h in t.handlers) and any(x is loop for x in ast.walk(t)) for t in top_try)
                 r3.check(ok3, f"{rel}:{cname}.{target}:top-level", "the thread's loop is not wrapped in try/except Exception -> scheduler.reject_job(None, error)", rel, tfn.lineno)
             # C10.2: every call of the start method is preceded (in the same function) by a registration into one of the work collections
-            starts = {s[0] for s in spawns}
+            starts = {row["start"] for row in table if row["class"] == cname and "note" not in row}
             works = set()
             for row in table:
                 if row["class"] == cname:
-                    works |= set(row["work"])
+                    works |= set(row.get("work", ()))
             for mname, fn in methods.items():
                 for c in calls_in(fn):
                     if call_name(c) in {f"self.{s}" for s in starts}:
